@@ -169,10 +169,8 @@ Section Generic2.
             let is_bz := match xop with IBZ _ => true | _ => false end in
             match b_next blk with
             | [j] =>
-                match ins_next p (last (b_ins blk) 0) with
-                | Some (_ :: _ :: _) => Some univ
-                | _ => if Nat.eqb b' j then Some (if is_bz then fv else tv) else Some univ
-                end
+                if branch_to_next p xop (last (b_ins blk) 0) then Some univ
+                else if Nat.eqb b' j then Some (if is_bz then fv else tv) else Some univ
             | d :: j :: _ =>
                 if Nat.eqb b' d then Some (if is_bz then tv else fv)
                 else if Nat.eqb b' j then Some (if is_bz then fv else tv)
@@ -207,12 +205,10 @@ Section Generic2.
         clearbody jumped z. clear Hbr Hg. unfold jump_ok in Hj.
         destruct (b_next blk) as [|d [|j r]] eqn:En; [discriminate| |].
         - (* one successor *)
-          destruct (ins_next p (last (b_ins blk) 0)) as [[|s1 [|s2 r']]|] eqn:Ei; try exact U;
-            (destruct (Nat.eqb b' d); [|exact U];
-             assert (Hlast : exit_is_last f blk = true) by
-               (destruct (exit_is_last f blk) eqn:Hl'; [reflexivity|];
-                destruct (branch_has_fallthrough f blk l xop Hfl Hl Ex Hl') as (s1' & s2' & r'' & E'); congruence);
-             rewrite (Hj Hlast) in Hg'; intros E; inversion E; subst c; exact Hg').
+          destruct (branch_to_next p xop (last (b_ins blk) 0)) eqn:Ei; [exact U|].
+          destruct (Nat.eqb b' d); [|exact U].
+          assert (Hnn' : exit_to_next f blk = false) by (unfold exit_to_next; rewrite Ex; exact Ei).
+          rewrite (Hj Hnn') in Hg'. intros E; inversion E; subst c; exact Hg'.
         - (* fall-through d, jump target j *)
           pose proof (nodup2 _ _ _ Hnn) as Hdj.
           destruct jumped; subst b'.
